@@ -31,8 +31,10 @@ ASSUMPTIONS = [
     "with scale*code exactly (x+(xq-x) is exact in float32 while |x| < "
     "2^23*scale); random inputs stay below 2^21; the deterministic probes "
     "3e7/1e9 lie beyond and a failure there carries region=ste_cancellation",
-    "float ('auto') scales: |y - scale*code| <= 1 float32 ulp of "
-    "max(|x|,|scale|) (rounding of x+(xq-x)); measured worst case 0.5 ulp",
+    "float ('auto') scales: |y - scale*code| <= 2 float32 ulp of "
+    "max(|x|,|scale|): y = fl(x + fl(xq - x)) is within 1.5 ulp of xq by "
+    "construction (|x| <= n*scale in a group of n); measured worst case on "
+    "the unchanged tree: 1.0 ulp",
     "least-squares scale: |scale - sum(x*c)/sum(c*c)| <= "
     "(1.01e-7*n/sum(c*c) + (n+8)*2^-24) relative, n = group size: the "
     "library divides means and adds K.epsilon() to the mean of c*c, and sums "
@@ -178,7 +180,7 @@ def evaluate(cfg, shape, xs, st=None, q=None, prime=False):
   if alpha is None:
     inside = np.ones(x.shape, dtype=bool)    # tanh surrogate, |s| <= 1
   tol = np.zeros(x.shape) if po2_scale else \
-      R.ulp32(np.maximum(np.abs(x), np.abs(s32)))
+      2.0 * R.ulp32(np.maximum(np.abs(x), np.abs(s32)))
   if not po2_scale:
     st["float_scale"] = True
   elif (~inside).any():
